@@ -288,6 +288,8 @@ type Exec struct {
 	curInstr  ssa.Instruction
 	initDone  map[*ssa.Package]bool
 	frozenAll bool
+	softFrozen []interface{} // objects frozen by FreezeGlobals: writable inside synchronised regions
+	syncDepth  int
 	forkReads bool
 	facts     map[int]ival
 	ivalMemo  map[int]ival
